@@ -467,7 +467,14 @@ template<class F, class T> struct SkImpl : ISk {
     const std::string im = image();
     uint64_t wsum = 0;
     const std::string c = content<F, T>(sk, &wsum);
-    return "IMG " + kind() + " " + vh::hex_of_bytes(reinterpret_cast<const uint8_t*>(im.data()), im.size()) + " | " + c + " | ok | size=" +
+    // both writers must produce the documented image: the model decodes the stream writer's bytes, and the byte-vector writer's
+    // image must be the same bytes (a writer-specific slip in either shows up as a difference, or in the model's reading)
+    std::string chk = "ok";
+    try {
+      auto b = sk.serialize(0);
+      if (std::string(reinterpret_cast<const char*>(b.data()), b.size()) != im) chk = "bytes-image-ne-stream-image";
+    } catch (const std::exception&) { chk = "serialize-bytes-threw"; }
+    return "IMG " + kind() + " " + vh::hex_of_bytes(reinterpret_cast<const uint8_t*>(im.data()), im.size()) + " | " + c + " | " + chk + " | size=" +
       std::to_string(im.size()) + " wsum=" + std::to_string(wsum) + " n=" + std::to_string(sk.get_n());
   }
 
